@@ -70,6 +70,33 @@ def _MS():
     return MS
 
 
+def _call_twice_unchanged(fn, arrays, what):
+    """Plain-function interface: the caller's arrays are not modified and a second call with the very same arrays gives the
+    same result (a transformation that doubles its input in place is right once and wrong ever after)."""
+    before = [a.copy() for a in arrays]
+    first = np.array(fn(*arrays), dtype=float)
+    for b, a in zip(before, arrays):
+        if not (b.dtype == a.dtype and b.shape == a.shape and np.array_equal(b, a, equal_nan=True)):
+            raise Violation("%s modified the array it was given: %r -> %r" % (what, b.tolist()[:6], a.tolist()[:6]),
+                            bucket="input_modified:" + what)
+    second = np.array(fn(*arrays), dtype=float)
+    if not np.array_equal(first, second, equal_nan=True):
+        raise Violation("%s called twice with the same arrays: %r then %r" % (what, first.tolist()[:6], second.tolist()[:6]),
+                        bucket="call_twice:" + what)
+    return first
+
+
+def _frame_unchanged(before, obj, what):
+    ok = (type(before) is type(obj) and before.index.equals(obj.index) and list(before.index.names) == list(obj.index.names)
+          and before.equals(obj))
+    if ok and isinstance(obj, pd.DataFrame):
+        ok = list(before.columns) == list(obj.columns) and [str(t) for t in before.dtypes] == [str(t) for t in obj.dtypes]
+    if ok and isinstance(obj, pd.Series):
+        ok = str(before.dtype) == str(obj.dtype) and before.name == obj.name
+    if not ok:
+        raise Violation("%s modified the object it was called on / given" % what, bucket="input_modified:" + what)
+
+
 def _close(got, want, rtol=RTOL):
     return abs(got - want) <= rtol * max(abs(want), abs(got))
 
@@ -304,7 +331,9 @@ def _fkm_cases(draw, tier):
 def fkm_closed_form(case, ctx):
     M, M2, Rg = case["M"], case["M2"], _f(case["R_goal"])
     amp, mean = case["amplitude"], case["mean"]
-    got = _MS().fkm_goodman(np.array(amp, dtype=float), np.array(mean, dtype=float), M, M2, Rg)
+    MS = _MS()
+    got = _call_twice_unchanged(lambda a, m: MS.fkm_goodman(a, m, M, M2, Rg),
+                                [np.array(amp, dtype=np.float64), np.array(mean, dtype=np.float64)], "fkm_goodman")
     if len(got) != len(amp):
         raise Violation("fkm_goodman returned %d amplitudes for %d cycles" % (len(got), len(amp)), bucket="fkm:length")
     qsegs = ref.q_segments(ref.fkm_goodman_segments(M, M2))
@@ -344,7 +373,9 @@ def five_segment_reference(case, ctx):
     wants = [ref.walk(a, m, qsegs, qg) for a, m in zip(amp, mean)]
     if all(w[1] < DOMAIN_MARGIN for w in wants):
         ctx.skip("every cycle leaves the domain (iso-damage amplitude not safely positive)")
-    got = _MS().five_segment_correction(np.array(amp, dtype=float), np.array(mean, dtype=float), *P, Rg)
+    MS = _MS()
+    got = _call_twice_unchanged(lambda a, m: MS.five_segment_correction(a, m, *P, Rg),
+                                [np.array(amp, dtype=np.float64), np.array(mean, dtype=np.float64)], "five_segment_correction")
     ctx.label(_goal_class(Rg), "M4>0" if case["M4"] > 0 else "M4=0")
     known = None
     for i, (a, m) in enumerate(zip(amp, mean)):
@@ -388,13 +419,19 @@ def _diagram(draw, allow_partial=True, allow_split=True, allow_rotated=True):
     edges = [-INF] + br + [1.0]
     Mst = st.one_of(st.sampled_from([0.0, 0.3]), st.floats(0.0, 0.95, allow_nan=False))
     segs = [(edges[i], edges[i + 1], draw(Mst)) for i in range(len(edges) - 1)]
-    tail = draw(st.sampled_from(["one", "one", "one", "none" if allow_partial else "one", "split" if allow_split else "one"]))
+    tail = draw(st.sampled_from(["one", "one", "one", "none" if allow_partial else "one", "split" if allow_split else "one",
+                                 "split" if allow_split else "one"]))
     M4 = draw(st.one_of(st.just(0.0), st.floats(0.0, 0.6, allow_nan=False)))
     if tail == "one":
         segs = [(1.0, INF, M4)] + segs
     elif tail == "split":
         b = draw(st.one_of(_grid_R_above_1(), st.integers(1050, 20000).map(lambda i: i / 1000.0)))
-        segs = [(1.0, b, M4), (b, INF, draw(st.one_of(st.just(0.0), st.floats(0.0, 0.6, allow_nan=False))))] + segs
+        Mx = st.one_of(st.just(0.0), st.floats(0.0, 0.6, allow_nan=False))
+        if draw(st.booleans()):
+            segs = [(1.0, b, M4), (b, INF, draw(Mx))] + segs
+        else:       # three segments beyond R = 1
+            b2 = b + draw(st.integers(50, 8000)) / 1000.0
+            segs = [(1.0, b, M4), (b, b2, draw(Mx)), (b2, INF, draw(Mx))] + segs
     # other row orders that the validation accepts: rotations of a diagram that covers the whole plane
     rot = draw(st.integers(0, len(segs) - 1)) if (allow_rotated and tail != "none" and draw(st.integers(0, 3)) == 0) else 0
     segs = segs[rot:] + segs[:rot]
@@ -680,12 +717,16 @@ def interfaces_agree(case, ctx):
             pkeys = [(7 + i,) for i in range(len(plist))]
             pnames = ["mat"]
         par = pd.DataFrame({k: [p[k] for p in plist] for k in keys}, index=pidx)
-    df0 = df.copy()
+    df0 = df.copy(deep=True)
+    keys_before = (par.copy(deep=True), list(par.index) if isinstance(par, pd.Series) else list(par.columns))
     acc = df.meanstress_transform
     res = (acc.fkm_goodman(par, Rg) if case["method"] == "fkm" else acc.five_segment(par, Rg))
     r_amp, r_mean = res.amplitude, res.meanstress
-    if not df.equals(df0):
-        ctx.label("observation:input_modified")        # not part of the statement, reported only
+    # the collective the caller holds is unchanged, and so are the values of the parameters he passed
+    # (fkm_goodman may ADD the default 'M2' to a parameter set without it - here M2 is always given)
+    _frame_unchanged(df0, df, "meanstress_transform.%s [collective]" % case["method"])
+    if not all(np.array_equal(np.asarray(par[k], dtype=float), np.asarray(keys_before[0][k], dtype=float)) for k in keys_before[1]):
+        raise Violation("meanstress_transform.%s changed the parameter values it was given" % case["method"], bucket="input_modified:parameters")
     # expected rows
     expected = {}
     for pk, p in zip(pkeys, plist):
@@ -764,6 +805,8 @@ def _matrix_cases(draw, tier):
         unit = draw(st.sampled_from([0.5, 1.0, 2.0])) if aligned else None
         e1 = draw(_axis_edges((-40, 40), unit))
         e2 = draw(_axis_edges((-40, 40), unit))
+        if draw(st.integers(0, 2)) == 0:
+            e2 = list(e1)          # same classes for from and to: the diagonal classes have the range 0
     else:
         unit = draw(st.sampled_from([0.5, 1.0, 2.0])) if aligned else None
         if aligned:
@@ -856,10 +899,9 @@ def matrix_transform(case, ctx):
         ctx.label("per_node_parameters")
     else:
         haigh = pd.Series({"M": case["M"], "M2": case["M2"]})
-    ser0 = ser.copy()
+    ser0 = ser.copy(deep=True)
     res = ser.meanstress_transform.fkm_goodman(haigh, Rg).to_pandas()
-    if not ser.equals(ser0):
-        ctx.label("observation:input_modified")        # not part of the statement, reported only
+    _frame_unchanged(ser0, ser, "series.meanstress_transform.fkm_goodman [matrix]")
     want_levels = {"range", "mean"} | set(extra_names)
     if set(res.index.names) != want_levels:
         raise Violation("result index levels %r, expected %r" % (list(res.index.names), sorted(want_levels)), bucket="matrix:levels")
